@@ -55,9 +55,10 @@ def _data_ok(e):
 def _space(case):
     if "concrete" in case:
         return [case["concrete"]]
-    spec0, table0 = E.BASES["frame"]
+    spec0, table0 = E.BASES[case.get("base", "frame")]
     sed = [e for e in E.schema_edits(spec0, parsers=True, rich=False) if _schema_ok(e)]
-    sed += [["addcheck", "col:b", c] for c in EXTRA_STR_CHECKS]
+    if case.get("base", "frame") == "frame":
+        sed += [["addcheck", "col:b", c] for c in EXTRA_STR_CHECKS]
     ded = [e for e in E.data_edits(table0, rich=False) if _data_ok(e)]
     import itertools
 
@@ -248,8 +249,13 @@ def plan(tier, seed):
     for ks, kd, nsh, layer in combos:
         for sh in range(nsh):
             cases.append({"ks": ks, "kd": kd, "shard": [sh, nsh], "exact": [sorted({i for i, _ in layer}), layer]})
+    # the parsing corner (optional column absent, default, nullable, ordered + add_missing_columns) as a second base: the column
+    # insertion / filtering logic of both backends is one or two edits away from it
+    for ks, kd, nsh, layer in combos[:2] + (combos[2:3] if tier != "quick" else []):
+        for sh in range(max(nsh // 4, 4)):
+            cases.append({"base": "frame_parsing", "ks": ks, "kd": kd, "shard": [sh, max(nsh // 4, 4)], "exact": [sorted({i for i, _ in layer}), layer]})
     return {"cases": cases, "exhaustive": True,
-            "bounds": {"edits": [c[3] for c in combos], "base": "frame (int, str, float columns; default index)", "rows": "<= 4"},
+            "bounds": {"edits": [c[3] for c in combos], "base": "frame (int, str, float columns; default index); frame_parsing (optional/defaulted/nullable columns, ordered, add_missing_columns) with <= (1,2) edits", "rows": "<= 4"},
             "rule": "state = distinct backend-neutral (schema, table); both backends validate lazily; non-trivial = schema differs from the base or errors were collected"}
 
 
